@@ -78,8 +78,8 @@ fn digest(b: &model::Board) -> u64 {
 /// situation the solver described.
 #[cfg(not(kani))]
 fn concretize(s: &Scn, actions: &[Action]) -> Scn {
-    let xs = s.prev[2].p1;
-    let xo = s.prev[2].t[0];
+    let xs = xs_of(s);
+    let xo = xo_of(s);
     let gs0 = build_state(s);
     let z = hooks::state_hash(&gs0);
     let mut map: Vec<(u64, u64)> = Vec::new();
@@ -123,18 +123,21 @@ fn start_hashes(s: &Scn, gs: &GameState, nb: &model::Board, _xs: u64, _xo: u64) 
 }
 
 #[cfg(kani)]
-fn arm_abstract(xs: u64, xo: u64, expect: Option<&model::Board>) {
-    unsafe {
-        crate::stubs::X_SAME = xs;
-        crate::stubs::X_OTHER = xo;
-        match expect {
-            Some(b) => {
-                crate::stubs::EXPECT = [b.p1, b.t[0], b.t[1], b.t[2], b.t[3], b.t[4], b.t[5], b.all()];
-                crate::stubs::EXPECT_ON = true;
-            }
-            None => crate::stubs::EXPECT_ON = false,
+fn arm_abstract(_xs: u64, _xo: u64, expect: Option<&model::Board>) {
+    // only the harness that checks WHICH board is hashed writes statics (see stubs.rs)
+    if let Some(b) = expect {
+        unsafe {
+            crate::stubs::EXPECT = [b.p1, b.t[0], b.t[1], b.t[2], b.t[3], b.t[4], b.t[5], b.all()];
+            crate::stubs::EXPECT_ON = true;
         }
     }
+}
+/// The abstract values the stub derives from the state hash.
+fn xs_of(s: &Scn) -> u64 {
+    s.hash.rotate_left(17) ^ 0x9E37_79B9_7F4A_7C15
+}
+fn xo_of(s: &Scn) -> u64 {
+    s.hash.rotate_left(41) ^ 0xC2B2_AE3D_27D4_EB4F
 }
 #[cfg(not(kani))]
 fn arm_abstract(_xs: u64, _xo: u64, _expect: Option<&model::Board>) {}
@@ -176,8 +179,8 @@ pub fn c05_passing_like<const KIND: u8>(inp: &Inp) -> Verdict {
         Some(t) => t,
         None => 0,
     };
-    let xs = s.prev[2].p1;
-    let xo = s.prev[2].t[0];
+    let xs = xs_of(&s);
+    let xo = xo_of(&s);
     let nb = after_board_words(&s.board, s.a_sq, t);
     arm_abstract(xs, xo, Some(&nb));
     let a = action_of(s.a_sq, s.a_dir);
@@ -212,7 +215,7 @@ fn sym_action(inp: &Inp, k: usize) -> Action {
 pub fn c06_remove<const STEP: usize, const KIND: u8>(inp: &Inp) -> Verdict {
     let s = decode(inp, STEP, KIND, 2);
     vassume!(inv_rules(&s));
-    arm_abstract(s.prev[2].p1, s.prev[2].t[0], None);
+    arm_abstract(xs_of(&s), xo_of(&s), None);
     let a = [sym_action(inp, 0), sym_action(inp, 1)];
     #[cfg(not(kani))]
     let s = concretize(&s, &a);
@@ -250,7 +253,7 @@ pub fn c06_remove<const STEP: usize, const KIND: u8>(inp: &Inp) -> Verdict {
 pub fn c07_has_non_passing<const STEP: usize, const KIND: u8>(inp: &Inp) -> Verdict {
     let s = decode(inp, STEP, KIND, 2);
     vassume!(inv_rules(&s));
-    arm_abstract(s.prev[2].p1, s.prev[2].t[0], None);
+    arm_abstract(xs_of(&s), xo_of(&s), None);
     let len = (inp[142] % 3) as usize;
     let a = [sym_action(inp, 0), sym_action(inp, 1)];
     #[cfg(not(kani))]
@@ -365,7 +368,7 @@ pub fn c07_summary<const STEP: usize, const KIND: u8, const PART: u8>(inp: &Inp)
 pub fn c07_summary3<const KIND: u8, const PART: u8>(inp: &Inp) -> Verdict {
     let s = decode(inp, 3, KIND, 2);
     vassume!(inv_rules(&s));
-    arm_abstract(s.prev[2].p1, s.prev[2].t[0], None);
+    arm_abstract(xs_of(&s), xo_of(&s), None);
     #[cfg(not(kani))]
     let s = {
         let g0 = build_state(&s);
@@ -391,7 +394,7 @@ pub fn c07_small<const STEP: usize, const KIND: u8, const KP: u32, const PART: u
     // the list relations do not depend on what the hash function is: run with the abstract
     // `move_piece` (two arbitrary values xor a board digest), natively with the real one after
     // re-creating the solver's equality pattern (`concretize`)
-    arm_abstract(s.prev[2].p1, s.prev[2].t[0], None);
+    arm_abstract(xs_of(&s), xo_of(&s), None);
     #[cfg(not(kani))]
     let s = {
         let g0 = build_state(&s);
@@ -416,7 +419,7 @@ pub fn c06_whole<const STEP: usize, const KIND: u8, const KP: u32>(inp: &Inp) ->
     vassume!(inv_rules(&s));
     vassume!(s.board.all().count_ones() <= KP);
     // the list relation does not depend on what the hash function is (see c07_small)
-    arm_abstract(s.prev[2].p1, s.prev[2].t[0], None);
+    arm_abstract(xs_of(&s), xo_of(&s), None);
     #[cfg(not(kani))]
     let s = {
         let g0 = build_state(&s);
@@ -453,7 +456,7 @@ pub fn c06_whole<const STEP: usize, const KIND: u8, const KP: u32>(inp: &Inp) ->
         k += 1;
     }
     assert!(va.len() == n, "C06: the offered list contains an action the repetition rules withhold (or an extra one)");
-    vcover!(withheld_any && n > 0, "C06 witness: something withheld, something offered");
+    vcover_if!(STEP >= 1 && (KIND != KIND_PUSH || STEP == 3), withheld_any && n > 0, "C06 witness: something withheld, something offered");
     std::mem::forget(va);
     std::mem::forget(nr);
     std::mem::forget(gs);
